@@ -5,7 +5,7 @@ SPEC = {
     "harness": "hx-chain",
     "harness_args": ["C02"],
     "translators": [],
-    "level_text": "Proof (Coq): in the model of attach_block / detach_block (transaction-location, number<->hash and uncle indexes) and attach_block_cell / detach_block_cell (live cells), detaching a block valid on a well-formed store is the exact inverse of attaching it on every column (c02_detach_inverse), hence after a reorganisation of any depth — rollback newest-first, then attaching any new branch, possibly empty (truncation), possibly re-committing detached transactions — the columns equal a replay of the new main chain from genesis (c02_reorg_is_replay). Tie: real on-disk nodes run generated histories with fee-paying transactions (in-block chains, conflicting spends, cross-branch re-commits, uncles), reorganisations (also to shorter-but-heavier chains), truncations and restarts; after every main-chain change COLUMN_CELL, COLUMN_TRANSACTION_INFO, COLUMN_INDEX and COLUMN_UNCLES are dumped by iteration from the store and from the published snapshot and compared with a replay computed by the harness (property predicate: contains the main chain's entries and nothing else; tip, per-block verified flag and accumulated difficulty) and with the Coq model (vm_compute); in a second stream a reader thread takes Shared::snapshot() continuously while the chain service processes asynchronously delivered blocks and every snapshot is compared with a replay of its own main chain.",
+    "level_text": "Proof (Coq): in the model of attach_block / detach_block (transaction-location, number<->hash and uncle indexes) and attach_block_cell / detach_block_cell (live cells), detaching a block valid on a well-formed store is the exact inverse of attaching it on every column (c02_detach_inverse), hence after a reorganisation of any depth — rollback newest-first, then attaching any new branch, possibly empty (truncation), possibly re-committing detached transactions — the columns equal a replay of the new main chain from genesis (c02_reorg_is_replay). Tie: real on-disk nodes run generated histories with fee-paying transactions (in-block chains, conflicting spends, cross-branch re-commits, uncles), reorganisations (also to shorter-but-heavier chains), truncations and restarts; after every main-chain change COLUMN_CELL, COLUMN_TRANSACTION_INFO, COLUMN_INDEX and COLUMN_UNCLES are dumped by iteration from the store and from the published snapshot and compared with a replay computed by the harness (property predicate: contains the main chain's entries and nothing else; tip, per-block verified flag and accumulated difficulty) and with the Coq model (vm_compute); the stored CellEntry / CellDataEntry / data hash / TransactionInfo values are compared byte for byte with the replay, and at the end of every history the canonical columns and every main-chain block's verification record (verified, total difficulty, uncle count, fees, cycles, sizes), tip and current-epoch record are compared with those of a fresh node that imported only the final main chain; in a second stream a reader thread takes Shared::snapshot() continuously while the chain service processes asynchronously delivered blocks and every snapshot is compared with a replay of its own main chain.",
     "level_note": "Trusted: Coq kernel; hand-written model Chain/Store.v (correspondence-checked on whole-column dumps). Cell output/data/data-hash, block number and epoch of a cell entry are functions of (tx id, index) and of the creating block, so the model keeps only creating block and tx index. Not modelled here: current-epoch and per-block epoch records, fees/cycles in BlockExt (C06/C14), the chain-root MMR (C19); snapshot consistency under concurrent writers relies on RocksDB snapshot isolation; it is sampled by the concurrent-snapshot stream (thousands of snapshots per run), not proved.",
     "trusted_base": COMMON_TB + [
         "hand-written model coq/Chain/Store.v of store/src/transaction.rs (attach_block, detach_block), store/src/cell.rs (attach_block_cell, detach_block_cell), chain/src/verify.rs (rollback order, reconcile_main_chain)",
